@@ -68,6 +68,10 @@ CLAIMED = {
  "C20": ("rapid coordinate sequences x thresholds vs exact rational point-segment distances; idempotence",
          "Generated-input search over sequences of 0..200 points (walks, collinear runs, closed loops, repeats, zig-zags) and threshold classes: index list shape, the exact distance of every omitted point to the segment joining its retained neighbours, exactness at threshold 0, idempotence and input immutability.",
          "Rounding slack thr*2^-30 + 2^-40*scale covers the library's own floating-point distance; integer grids up to 2^16.", "DESIGN.md §4 C20"),
+
+ "C17": ("rapid call mixes over a shared pool: bitwise argument snapshots, sequential-vs-concurrent result comparison, Go race detector",
+         "Generated-input search over call mixes from an inventory of 43 groups of non-mutating exported functions: phase A runs each mix alone with a bitwise snapshot of every argument (flat arrays up to capacity, offsets, byte slices) and of the package option variables around every call; phase B runs the same mix from 4..16 goroutines on the same pool and requires every result to equal its phase-A value; the driver also runs the property from a -race binary, where any report of the race detector is a violation.",
+         "Interleavings are explored by the Go scheduler, not owned by the harness: the race detector's happens-before analysis finds unsynchronised sharing on executed paths regardless of actual collisions, but an order-dependent logical race behind proper synchronisation would be missed; schedule-dependent failures are reported with the call mix and the detector report, not shrunk.", "DESIGN.md §4 C17, §6"),
 }
 PENDING_REASON = "check not built yet in this session (planned, see DESIGN.md §4); not claimed until its harness package exists"
 
